@@ -8,5 +8,6 @@ CONSTANTS
   GapFix = FALSE
   CertRounds = {1, 2}
   Direct = TRUE
+  MidCrash = TRUE
   Timeouts = TRUE
 INVARIANT ContainerOK
